@@ -328,7 +328,7 @@ theorem holds_step (n : Nat) (all : List Op) (w : World) (s : Ref) (hs : Sim all
     cases hc : w.chk k a with
     | none =>
       rw [result_none _ _ _ _ hc]
-      simp only [Option.map_none, Option.isNone_none, Bool.true_and]
+      simp only [Option.map_none]
       exact all_range _ _ (fun x => by simp)
     | some c =>
       obtain ⟨hrun, _, _⟩ := hs.good _ _ _ hc
